@@ -371,17 +371,22 @@ Definition nonempty_l {A} (l : list A) : bool := match l with [] => false | _ =>
 
 Definition lowered_headers (l : list str) : list str := dedup (map lower_latin1 l).
 
-(* the six atoms the generated proxy formulas read *)
-Definition proxy_atoms (a : attrs) : bool * bool * bool * bool * bool * bool :=
+(* trusted_proxy_count as assigned by the cast loop (int() always yields an int) *)
+Definition attr_count (a : attrs) : option Z :=
+  match dict_get k_trusted_proxy_count a with Some (SInt z) => Some z | _ => None end.
+
+(* the seven atoms the generated proxy formulas read *)
+Definition proxy_atoms (a : attrs) : bool * bool * bool * bool * bool * bool * bool :=
   let tp_none := match dict_get k_trusted_proxy a with
                  | None => defaults_proxy_and_sockets_empty
                  | Some SNone => true
                  | Some _ => false
                  end in
-  let tpc_none := match dict_get k_trusted_proxy_count a with None => true | Some _ => false end in
+  let tpc_none := match attr_count a with None => true | Some _ => false end in
+  let count_below := match attr_count a with Some z => Z.ltb z proxy_min_count | None => false end in
   let hdrs := match dict_get k_trusted_proxy_headers a with Some (SSet l) => l | _ => [] end in
   let low := lowered_headers hdrs in
-  (tp_none, tpc_none, nonempty_l hdrs,
+  (tp_none, tpc_none, count_below, nonempty_l hdrs,
    existsb (fun h => negb (memstr h known_proxy_headers)) low,
    memstr proxy_forwarded_name low,
    existsb (fun h => negb (beqb h proxy_forwarded_name)) low).
@@ -409,12 +414,12 @@ Definition construct (e : env) (kw : kwargs) : outcome attrs :=
     match listen_loop listen portstr fam [] [] with
     | Exn x => Exn x
     | Ok wanted =>
-      let '(tp_none, tpc_none, hn, hu, hf, ho) := proxy_atoms a in
-      if proxy_refused tp_none tpc_none hn hu hf ho then Exn ValueError else
-      let a := if proxy_count_defaulted tp_none tpc_none hn hu hf ho
+      let '(tp_none, tpc_none, cb, hn, hu, hf, ho) := proxy_atoms a in
+      if proxy_refused tp_none tpc_none cb hn hu hf ho then Exn ValueError else
+      let a := if proxy_count_defaulted tp_none tpc_none cb hn hu hf ho
                then dict_set k_trusted_proxy_count (SInt (Z.of_N proxy_default_count)) a else a in
       let hdrs := match dict_get k_trusted_proxy_headers a with Some (SSet l) => l | _ => [] end in
-      let a := if proxy_headers_defaulted tp_none tpc_none hn hu hf ho
+      let a := if proxy_headers_defaulted tp_none tpc_none cb hn hu hf ho
                then dict_set k_trusted_proxy_headers (SSet proxy_default_headers) a
                else if hn then dict_set k_trusted_proxy_headers (SSet (lowered_headers hdrs)) a
                else a in
